@@ -7,7 +7,7 @@ RAII holder classes release their members; (3) every index used by every generat
 inside the extent of the block it addresses (abstract blocks have their exact size, so an
 out-of-extent access is detected wherever it occurs); alignment hints only under the asserted flag."""
 from astdb import AnalysisBroken
-from interp import Interp, Obj, Cell, Ptr, Region, Thrown, OutOfBounds
+from interp import NullDeref, Interp, Obj, Cell, Ptr, Region, Thrown, OutOfBounds
 from kernels import make_suv, KernelHooks, GslMatrix, SUV
 from poly import Poly, CPoly
 from stdmodel import make_vector
@@ -125,11 +125,18 @@ def sweep_solver(db, rep, tier):
         sc.break_ = lambda *a, **k: None
         try:
             job(sc)
-            rep.ok('A.idx.bound')
+            nulls = [d for d in getattr(sc, 'details', []) if 'null pointer' in str(d[3])]
+            if nulls:
+                rule, site, where, found = nulls[0]
+                rep.fail('A.idx.bound', 'solver/%s/%s' % (label, site), where or 'src/SQuIDS.cpp', 'every access inside a block the object owns', str(found))
+            else:
+                rep.ok('A.idx.bound')
         except Thrown:
             rep.ok('A.idx.bound')  # a library exception ends the run; what was accessed before it stayed inside the extents
         except OutOfBounds as e:
             rep.fail('A.idx.bound', 'solver/' + label, e.where or 'src/SQuIDS.cpp', 'every index inside the extent of its block', str(e))
+        except NullDeref as e:
+            rep.fail('A.idx.bound', 'solver/' + label, getattr(e, 'where', None) or 'src/SQuIDS.cpp', 'every access inside a block the object owns', 'a null pointer is dereferenced: %s' % e)
     rep.floor('A.idx.bound.solver', n, 8)
     # function-local static buffers outlive the call and the solver object: the queries are run on two solvers of
     # different dimension that share those statics, smaller first and larger first
